@@ -81,6 +81,23 @@ def build(tier, seed):
         bounds="the five methods and an unknown one",
         what="each template closes exactly the group its text formatting opened (plus its own paragraph group); an unknown method raises ValueError"))
     obs.append(Ob(
+        oid="O1.u_escapes", sig="cp: int, conv: bool, m: int", pre=["128 <= cp <= 0x10FFFF and not (0xD800 <= cp <= 0xDFFF)", "0 <= m <= 2"],
+        header=HDR1 + "from vf.hlib import rtf_decode_text\n", templates=True, timeout=T,
+        body=r'''
+    holes_reset()
+    tc = TextContent.model_construct(text="a" + chr(cp) + "b", font=1, size=9, format=None, color=None, background_color=None,
+                                     justification="l", indent_first=0, indent_left=0, indent_right=0, space=1, space_before=15,
+                                     space_after=15, convert=conv, hyphenation=True)
+    out = tc._as_rtf(pick(METHODS, m))
+    i = out.index("{\\f0 ") + 5
+    j = out.index("}", i)
+    units = rtf_decode_text(out[i:j])
+    return lex_ok(out) and units is not None and all(isinstance(u, int) for u in units)
+''',
+        funcs=["rtflite.row:TextContent._as_rtf", "rtflite.row:TextContent._convert_special_chars"], stubs=["TextContent -> model_construct"],
+        bounds="one symbolic non-ASCII code point (all of them) in the three escaping templates",
+        what="every \\u escape carries a parameter inside RTF's signed 16-bit range and is followed by its fallback character"))
+    obs.append(Ob(
         oid="O1.text.ascii", sig="c: str, m: int, conv: bool", pre=["len(c) == 1 and ' ' <= c <= '~' and c not in (chr(92), '{', '}')", "0 <= m <= 2",
                                                                      "(not conv) or c not in '^_<>='"],
         header=HDR1, timeout=T,
